@@ -48,6 +48,10 @@ CHECKS = {
   "repeated-execution monitor: digest equality across repeats in one process and across fresh child processes (new hash seeds)",
   "Values with many entries in every map the code iterates (fonts with 50-500 glyphs, metrics with several ligatures on many glyphs, CMap files defining 2-6 CMaps registered under shuffled keys with present, missing or shared /CMapName) are pushed through every writer (Font.Write in four formats, WritePDF, Metrics.Write) and reader (type1.Read, afm.Read, ReadCMap, GlyphList) 12-30 times inside one process and once in each of 4-10 freshly started child processes; all digests must agree.",
   "Digests iterate over sorted keys only. A difference needs at least two entries in some iterated map; value sizes are chosen so that every such map has many."),
+ "C14": ("exploration", "DESIGN.md 11/C14",
+  "reference-model monitor (expected-output function over segment lists) with caller-buffer and delivery schedule injection at the io.Reader boundary",
+  "Segment lists (text/binary in any order, lengths 0-3000 including runs of empty segments, with end marker, without, with garbage after it) are framed by the harness and decoded through pfb.Decode under caller buffer plans (1, 2, 3, 5, 7, 512, 4096, seeded mixes of odd, even and zero sizes) and underlying delivery plans (all at once, single bytes, seeded chunk sizes, data returned together with EOF); the concatenated output must equal text verbatim / binary as lower-case hex, every Read must fill its buffer unless the stream ends, all 65536 first-two-byte headers (and bad headers mid-stream) must give ErrInvalidPFB exactly when marker or type are wrong, and a binary segment truncated at any position must end with an error under every plan.",
+  "A clean io.EOF is the normal end-of-stream indication, so it does not count as 'an error'. Truncated text segments and truncated headers are not asserted (the property does not state them)."),
 }
 
 NOT_CLAIMED = {}
